@@ -85,6 +85,7 @@ def run(ctx):
 
     holder_triple_rule(ctx, 'C10.i')
     sweep_rewrite_length_rule(ctx, 'C10.j')
+    shared.numeric_predicate_on_symbols_rule(ctx, 'C10.l', ['cirq-core/cirq/transformers/'], floor=2)
     _c16._sweep_subclass_shadowing(ctx, repo, rid='C10.k', prefixes=('cirq-core/cirq/study/', 'cirq-core/cirq/transformers/', 'cirq-core/cirq/sim/', 'cirq-core/cirq/work/'), floor=1)
     ctx.decided.append('C10.i classes whose constructor accepts symbolic-capable values implement the parameter protocols')
 
